@@ -611,6 +611,25 @@ impl EmitScope {
         self.choice_label_targets.get(label).map(String::as_str)
     }
 
+    /// A bare label that is not visible from the current weave is searched for in the
+    /// whole knot, other stitches included, as inklecate does.
+    fn resolve_choice_label_in_knot<'a>(
+        &self,
+        label: &str,
+        context: &'a EmitContext,
+    ) -> Option<&'a str> {
+        let knot = self.top_flow_name.as_ref()?;
+        let suffix = format!(".{label}");
+        context
+            .qualified_choice_labels
+            .iter()
+            .find(|(key, _)| {
+                key.strip_prefix(knot.as_str())
+                    .is_some_and(|rest| rest.ends_with(&suffix) && rest.starts_with('.'))
+            })
+            .map(|(_, path)| path.as_str())
+    }
+
     fn resolve_qualified_choice_label(
         &self,
         target: &str,
